@@ -212,7 +212,7 @@ func (e *Engine) callMods(c *ssa.CallCommon, ms *ModSet, visiting map[*ssa.Funct
 		return
 	}
 	if fn.Blocks == nil || !e.analysed(fn) {
-		if e.pureExterns[name] || e.pureExternPkg(fn) {
+		if e.pureExterns[name] || e.pureExternPkg(fn) || name == "syscall.(*Timespec).Unix" {
 			return
 		}
 		ms.all = true
@@ -446,7 +446,7 @@ func (e *Engine) pureExternPkg(fn *ssa.Function) bool {
 		return false
 	}
 	switch fn.Pkg.Pkg.Path() {
-	case "strings", "path", "path/filepath", "fmt", "log", "errors", "strconv", "time", "unicode/utf8", "math", "sort":
+	case "strings", "path", "path/filepath", "fmt", "log", "errors", "strconv", "time", "unicode/utf8", "math", "sort", "os/user", "io/fs":
 		return true
 	}
 	return false
@@ -525,7 +525,7 @@ func (x *Exec) callFunc(st *State, fr *frame, fn *ssa.Function, bindings []Val, 
 		e.usedExterns[name] = true
 		return h(x, st, fr, c, args, pos)
 	}
-	if ct := e.contracts[name]; ct != nil && !ct.Inline && fn != x.root && len(ct.Ensures)+len(ct.Requires) > 0 {
+	if ct := e.contracts[name]; ct != nil && !ct.Inline && fn != x.root && (len(ct.Ensures)+len(ct.Requires) > 0 || ct.Trusted) {
 		return x.applyContract(st, fr, ct, fn.Signature, fn, args, pos, name)
 	}
 	if fn.Blocks != nil && (e.analysed(fn) || e.inlineExtern[name]) {
@@ -537,7 +537,7 @@ func (x *Exec) callFunc(st *State, fr *frame, fn *ssa.Function, bindings []Val, 
 		return x.inline(st, fr, fn, bindings, args, pos)
 	}
 	// unmodelled external function
-	if e.pureExterns[name] || e.pureExternPkg(fn) {
+	if e.pureExterns[name] || e.pureExternPkg(fn) || name == "syscall.(*Timespec).Unix" {
 		e.notes["extern (pure, arbitrary result): "+name] = true
 		return one(st, st.fresh("ext", fn.Signature.Results()))
 	}
@@ -582,6 +582,7 @@ func (x *Exec) applyContract(st *State, fr *frame, ct *Contract, sig *types.Sign
 	if fn != nil {
 		for i, p := range fn.Params {
 			ctx.vars[p.Name()] = args[i]
+			ctx.vars[fmt.Sprintf("arg%d", i)] = args[i]
 		}
 	} else {
 		// interface method / func type: receiver is "self", parameters by declared names
